@@ -270,7 +270,7 @@ def opspecs(form, fields):
                 # SBFM/BFM/UBFM: plain fields (the ImmBFM attribute of the database only states the range 0..size-1)
                 spec = "(.immU %s 1)" % q(d[1:])
                 used.add(d[1:])
-            elif re.fullmatch(r"#([A-Za-z_0-9]+)", d) and d[1:] in fnames and not imm_attr and d[1:] not in ("n", "sysreg"):
+            elif re.fullmatch(r"#([A-Za-z_0-9]+)", d) and d[1:] in fnames and not imm_attr and (d[1:] not in ("n", "sysreg") or (d == "#sysreg" and any(f[0] == "sysreg" and f[1][0][2] == 16 for f in fields))):
                 fld = d[1:]
                 if fld.endswith("S") and fld.startswith("imm"):
                     spec = "(.immS %s)" % q(fld)
@@ -368,6 +368,15 @@ def collect_forms(repo):
             mask, value, fields = parse_template(f["opcodeString"], f["fields"])
         except TranslateError:
             raise
+        # MRS / MSR (register): the operand is AsmJit's 16-bit system register id op0:op1:CRn:CRm:op2 (a64globals.h SysReg::encode).
+        # The template gives op0<1> as a fixed 1 right above the 15-bit `sysreg` field; widen the field over that bit so that the id
+        # is compared as a whole
+        if any(o["data"] == "#sysreg" for o in f["ops"]):
+            for k, (fname, pieces) in enumerate(fields):
+                if fname == "sysreg" and len(pieces) == 1 and pieces[0][2] == 15:
+                    top = pieces[0][0] + 15
+                    if (mask >> top) & 1 and (value >> top) & 1:
+                        fields[k] = (fname, [(pieces[0][0], 0, 16)])
         specs, free, srcs = opspecs(f, fields)
         if "_new_value" in f:
             value = f["_new_value"] & mask
